@@ -143,11 +143,41 @@ func c19Run(c *ev.Ctx, k c19Case) {
 		cert := c19Cert(k)
 		got = certutil.GetType(cert)
 		label, lerr = certutil.Label(cert)
-		in := k.Prins
+		in := k.Prins // the caller's own long-lived list, reused across calls
 		if k.PrinsNil {
 			in = nil
 		}
 		prins = certutil.GetPrincipals(in, got)
+	}); p != "" {
+		c.Violation("C19:panic:"+ev.PanicSite(p), "panic: "+p, k)
+		return
+	}
+	// the returned principals belong to the caller, and so does the input list: after both were overwritten, the same call
+	// gives the same answer again
+	if p := ev.Guard(func() {
+		in := k.Prins
+		if k.PrinsNil {
+			in = nil
+		}
+		if len(prins) > 0 && len(in) > 0 && &prins[0] == &in[0] {
+			return // the result IS the caller's list (handed back unchanged, or labelled in place): nothing of its own to overwrite
+		}
+		first := fmt.Sprintf("%q", prins)
+		var inCopy []string
+		if in != nil {
+			inCopy = append([]string{}, in...)
+		}
+		for i := range prins {
+			prins[i] = "scribbled-by-the-caller"
+		}
+		again := certutil.GetPrincipals(inCopy, got)
+		if fmt.Sprintf("%q", again) != first {
+			c.Violation("C19:prins:depends-on-what-the-caller-did-to-an-earlier-result", fmt.Sprintf("GetPrincipals(%q) gave %s, and after the caller overwrote that result it gives %q", in, first, again), k)
+		}
+		if fmt.Sprintf("%q", inCopy) != fmt.Sprintf("%q", in) {
+			c.Count("calls_that_modified_their_input_list", 1) // not demanded by the statement
+		}
+		prins = again
 	}); p != "" {
 		c.Violation("C19:panic:"+ev.PanicSite(p), "panic: "+p, k)
 		return
